@@ -89,6 +89,15 @@ def run(rep):
     ini = [s for s in cq.preceding(top, loop) if s.get("kind") == "BinaryOperator" and s.get("opcode") == "=" and text(s["inner"][0]) == cnt and cq.same_expr(s["inner"][1], "0")]
     rep.check(bool(ini) and cnt not in cnorm.writes({"kind": "CompoundStmt", "inner": [s for s in cq.preceding(top, loop) if s not in ini]})[0],
               "R16.a", file, "c_intersect", "counter starts at 0", "", line=fi["line"])
+    # the formulas are compared in exact real arithmetic, where a conversion to an integer type is the identity: none may occur in the kernel's
+    # own floating-point computations (a cell-size ratio such as 0.3/0.1 = 2.9999999999999996 truncates to 2)
+    for kn_ in ("c_intersect", "c_voronoi"):
+        kfn = K["fns"].get(kn_)
+        if kfn is None:
+            continue
+        trunc = find_all(kfn["body"], lambda n: n.get("castKind") == "FloatingToIntegral")
+        rep.check(not trunc, "R16.a" if kn_ == "c_intersect" else "R16.c", file, kn_, "no floating-point value is truncated to an integer inside the kernel (weights and distances are computed in double)",
+                  f"line {trunc[0].get('_line')}: `{text(trunc[0])[:60]}`" if trunc else "", line=(trunc[0].get("_line") if trunc else kfn["line"]))
     calls_ = find_all(loop, lambda n: n.get("kind") == "CallExpr" and text(n["inner"][0]) == "c_coord2cell")
     okc, cellname, scalar_cell = False, None, False
     if len(calls_) == 1:
@@ -338,6 +347,21 @@ def run(rep):
     rep.check(all(pn in vargs and pq.same(vargs[pn], w) for pn, w in vgeo.items()), "R16.c", "gis/grid.py", "voronoi",
               "geometry of the catchment's flow-direction grid bound to the kernel parameters of the same meaning",
               "; ".join(f"{k_}={show(vargs.get(k_, num(0)))[:50]}" for k_ in vgeo), line=sv.call.lineno)
+    # the cells that vote are the cells of the catchment area itself (the hole-filled area used for extents and boundaries counts cells
+    # that do not drain to the outlet)
+    ca = vargs.get("idxcells_area")
+    cons_a = "the cells handed to c_voronoi are the catchment's area cells (idxcells_area), not the hole-filled set"
+    if ca is None:
+        rep.undecided("R16.c", "gis/grid.py", "voronoi", cons_a, "argument not bound", line=sv.call.lineno)
+    else:
+        filled = pq.mentions(ca, lambda x: x[0] == 'call' and x[1] in ("attr:_idxcells_area_filled", "attr:idxcells_area_filled"))
+        plain = pq.mentions(ca, lambda x: x[0] == 'call' and x[1] in ("attr:_idxcells_area", "attr:idxcells_area"))
+        if filled:
+            rep.violation("R16.c", "gis/grid.py", "voronoi", cons_a, f"{show(ca)[:80]}: cells of internal holes are counted and the weights are normalised by the wrong total", line=sv.call.lineno, firm=True)
+        elif plain:
+            rep.proved("R16.c", "gis/grid.py", "voronoi", cons_a, line=sv.call.lineno)
+        else:
+            rep.undecided("R16.c", "gis/grid.py", "voronoi", cons_a, show(ca)[:100], line=sv.call.lineno)
     return EXPLANATION
 
 
